@@ -97,7 +97,7 @@ def parse_stats(s):
     d = {}
     for tok in s.split():
         k, v = tok.split("=")
-        d[k] = float(v) if k in ("back", "minlen", "maxabs", "rmin", "rmax") else int(v)
+        d[k] = float(v) if k in ("back", "minlen", "maxabs", "rmin", "rmax", "minpos") else int(v)
     return d
 
 
@@ -113,6 +113,8 @@ def property_failures(st, n):
     ulp = math.ulp(st["maxabs"]) if st["maxabs"] > 0 else 5e-324
     if st["back"] > 16 * ulp:
         bad.append("not monotone: step %d goes back by %.6g" % (st["at"], st["back"]))
+    if st["zero"] > 0 and st["minpos"] > 1e7 * ulp:
+        bad.append("not strictly monotone: %d zero-length element(s) while every other element is resolved" % st["zero"])
     resolved = st["minlen"] > 1e7 * ulp
     if n >= 3 and resolved and st["rmax"] - st["rmin"] > 1e-4 * abs(st["rmax"]):
         bad.append("ratio of consecutive lengths not constant: min %.9g max %.9g" % (st["rmin"], st["rmax"]))
@@ -202,7 +204,7 @@ def run(ck):
         "node bit patterns), harness built with -ffp-contract=off; std::sqrt / std::pow are the glibc functions on both sides",
         "theorems are in exact arithmetic (ordered field, pow = r^n, sqrt abstract with the square-root law): rounding, "
         "overflow of r^n and elements below the resolution of double are not modelled; on the implementation the "
-        "property is evaluated with noise bounds derived from ulp(max|node|) (monotonicity: backward step > 16 ulp; "
+        "property is evaluated with noise bounds derived from ulp(max|node|) (monotonicity: backward step > 16 ulp, or a zero-length element while all others exceed 1e7 ulp; "
         "constant ratio: only when every element length exceeds 1e7 ulp, relative spread > 1e-4)",
         "the direction of the grading for xe < xb (which end gets the small elements) is not part of the property",
     ]
